@@ -22,6 +22,19 @@ def vectors(ctx):
         f = gen.set_bits(f, 33, 37, 28)
         f = gen.set_bits(f, 44, 56, code)
         V.append({"fn": "adsb.emergency_squawk", "frame": f, "code": code})
+    # TC28: every subtype x emergency state against an all-zeros and an all-ones rest of the ME field, with the identity
+    # codes a special case would key on (0, all ones, single pulses)
+    for bg in (0, 1):
+        for st in range(8):
+            for es in range(8):
+                for code in [0, 8191, 0o7700 & 8191] + [1 << b for b in range(13)]:
+                    f = gen.rand_frame_df(rng, rng.choice([17, 18]))
+                    f = gen.set_bits(f, 33, 88, ((1 << 56) - 1) * bg)
+                    f = gen.set_bits(f, 33, 37, 28)
+                    f = gen.set_bits(f, 38, 40, st)
+                    f = gen.set_bits(f, 41, 43, es)
+                    f = gen.set_bits(f, 44, 56, code)
+                    V.append({"fn": "adsb.emergency_squawk", "frame": f, "code": code})
     n = 0
     for fs in range(8):
         for dr in range(32):
